@@ -27,7 +27,7 @@ fn spec(t: Tier) -> Spec {
     Spec {
         id: "C18",
         level: "exploration",
-        rule: format!("every list of <= {} starting points over {} spellings (directory, ./, trailing /, //, /., ../, absolute, missing, file, link to directory with and without trailing /, dangling link, names beginning with ( and !; lists of <= 2 also under -H and -L) (plus, through -files0-from only: the empty name, a name starting with '-', a name containing a newline) is walked by find_main; the -print0 output must be the concatenation, in order, of the per-root reference walks with every path beginning with the root exactly as spelled; each argv list is also given as -files0-from FILE (with and without final NUL) and must give byte-identical output; missing roots must be diagnosed with non-zero status without affecting the others; the no-root case must equal '.'; binary slice: -files0-from - on stdin; environment cases: a -files0-from list written to a pipe in three pieces; four starting points (one missing) with standard output on /dev/full — all still processed, seen through -fprint; a list holding a name that is not valid UTF-8 (walked, or refused loudly); scale slice: 3000 starting points (18 000-byte list) on the command line, via -files0-from FILE and via -files0-from - with and without a final NUL; 255, 256, 257 and 512 missing starting points followed by an existing one through the binary (every one diagnosed, exit status non-zero, the existing one walked); non-trivial = list with >= 2 roots or a non-canonical spelling", bounds(t), ARGV_ROOTS.len()),
+        rule: format!("every list of <= {} starting points over {} spellings (directory, ./, trailing /, //, /., ../, absolute, missing, file, link to directory with and without trailing /, dangling link, names beginning with ( and !; lists of <= 2 also under -H and -L) (plus, through -files0-from only: the empty name, a name starting with '-', a name containing a newline) is walked by find_main; the -print0 output must be the concatenation, in order, of the per-root reference walks with every path beginning with the root exactly as spelled; each argv list is also given as -files0-from FILE (with and without final NUL) and must give byte-identical output; missing roots must be diagnosed with non-zero status without affecting the others; the no-root case must equal '.'; an empty name is skipped (at most one diagnostic per empty name and no report of an attempt to examine it); alignment sweep: lists of ~1400 and ~2800 names with the terminator of a name at every byte offset 8186..8198 and 16380..16388 (FILE and stdin); binary slice: -files0-from - on stdin; environment cases: a -files0-from list written to a pipe in three pieces; four starting points (one missing) with standard output on /dev/full — all still processed, seen through -fprint; a list holding a name that is not valid UTF-8 (walked, or refused loudly); scale slice: 3000 starting points (18 000-byte list) on the command line, via -files0-from FILE and via -files0-from - with and without a final NUL; 255, 256, 257 and 512 missing starting points followed by an existing one through the binary (every one diagnosed, exit status non-zero, the existing one walked); non-trivial = list with >= 2 roots or a non-canonical spelling", bounds(t), ARGV_ROOTS.len()),
         bound: json!({"max_roots": bounds(t), "argv_spellings": ARGV_ROOTS, "files0_only": FILES0_ONLY}),
         assumptions: vec!["exit status after an empty -files0-from name is not judged (statement: 'diagnosed and skipped')".into()],
         shards: 0,
@@ -76,15 +76,15 @@ fn spell<'a>(env: &'a Env, r: &'a str) -> &'a str {
 }
 
 /// reference: (stdout bytes, any root missing, any empty name)
-fn expected(env: &Env, roots: &[&str], follow: Follow) -> (Vec<u8>, bool, bool) {
+fn expected(env: &Env, roots: &[&str], follow: Follow) -> (Vec<u8>, bool, usize) {
     let cfg = WalkCfg { follow, mindepth: 0, maxdepth: usize::MAX, depth_first: false };
     let mut out = vec![];
     let mut missing = false;
-    let mut empty = false;
+    let mut empty = 0usize;
     for r in roots {
         let sp = spell(env, r);
         if sp.is_empty() {
-            empty = true;
+            empty += 1;
             continue;
         }
         let mut notes = WalkNotes::default();
@@ -109,7 +109,7 @@ fn expected(env: &Env, roots: &[&str], follow: Follow) -> (Vec<u8>, bool, bool) 
     (out, missing, empty)
 }
 
-fn judge(what: &str, want: &(Vec<u8>, bool, bool), got: &FindOut) -> Option<(String, String)> {
+fn judge(what: &str, want: &(Vec<u8>, bool, usize), got: &FindOut) -> Option<(String, String)> {
     if let Err(p) = &got.code {
         return Some((format!("C18 panic ({what})"), p.clone()));
     }
@@ -126,10 +126,19 @@ fn judge(what: &str, want: &(Vec<u8>, bool, bool), got: &FindOut) -> Option<(Str
             format!("status {:?} stderr {:?}", got.code, String::from_utf8_lossy(&got.err)),
         ));
     }
-    if want.2 && got.err.is_empty() {
+    if want.2 > 0 && got.err.is_empty() {
         return Some((format!("C18 empty name in -files0-from not diagnosed ({what})"), String::new()));
     }
-    if !want.1 && !want.2 && got.code != Ok(0) {
+    // "diagnosed and skipped": nothing is examined under an empty name — at most one diagnostic per
+    // empty name, and none that reports a failed attempt to look at it
+    let err = String::from_utf8_lossy(&got.err);
+    if want.2 > 0 && !want.1 && (err.lines().count() > want.2 || err.contains("No such file")) {
+        return Some((
+            format!("C18 empty name in -files0-from not skipped: an attempt to examine it is reported ({what})"),
+            format!("{} empty name(s); status {:?} stderr {:?}", want.2, got.code, err),
+        ));
+    }
+    if !want.1 && want.2 == 0 && got.code != Ok(0) {
         return Some((
             format!("C18 non-zero exit status although every starting point is fine ({what})"),
             format!("status {:?} stderr {:?}", got.code, String::from_utf8_lossy(&got.err)),
@@ -198,7 +207,7 @@ fn check_list_follow(ctx: &mut Ctx, env: &Env, roots: &[&str], argv_ok: bool, fo
         }
         let args: Vec<&str> = av.iter().map(|s| s.as_str()).collect();
         let got = run_find(&args);
-        ctx.rep.class(&format!("{} missing={} empty={} status={:?}", what.split(' ').next().unwrap(), want.1, want.2, got.code.as_ref().map(|c| *c).unwrap_or(101)));
+        ctx.rep.class(&format!("{} missing={} empty={} status={:?}", what.split(' ').next().unwrap(), want.1, want.2 > 0, got.code.as_ref().map(|c| *c).unwrap_or(101)));
         if ctx.rep.evaluations % 500 == 3 {
             ctx.rep.sample(json!({"roots": roots, "form": what, "expected": String::from_utf8_lossy(&want.0).replace('\0', " | ")}));
         }
@@ -358,6 +367,39 @@ fn scale_slice(ctx: &mut Ctx) {
                 format!("{what}: status {:?}, {} entries printed (expected 3000), first difference at entry {:?}; stderr {:?}", got.code, got.out.iter().filter(|&&c| c == 0).count(), first, String::from_utf8_lossy(&got.err).lines().take(3).collect::<Vec<_>>()),
                 json!({"prop":"C18","scale":true}),
             );
+        }
+    }
+    // the terminator of some name at every offset around the 8192- and 16384-byte marks of the list
+    // (a reader that takes the list in blocks sees a block that starts or ends with a terminator)
+    for t in (8186usize..=8198).chain(16380..=16388) {
+        let j = (t - 13) / 6;
+        let p = t - 6 - 6 * j;
+        let first = format!(".{}n0000", "/".repeat(p - 6));
+        let mut roots: Vec<String> = vec![first];
+        roots.extend((1..=j + 40).map(|i| format!("n{i:04}")));
+        let data: Vec<u8> = roots.iter().flat_map(|r| r.bytes().chain(std::iter::once(0))).collect();
+        if data.get(t) != Some(&0) || data.get(t - 1) == Some(&0) {
+            ctx.rep.machinery(format!("alignment sweep: no terminator at offset {t}"));
+            continue;
+        }
+        for stdin in [false, true] {
+            let got = if stdin {
+                run_find_bin(&["-files0-from", "-", "-print0"], &many, Some(&data))
+            } else {
+                std::fs::write(&listf, &data).unwrap();
+                run_find(&["-files0-from", listf.to_str().unwrap(), "-print0"])
+            };
+            ctx.rep.evaluations += 1;
+            ctx.rep.nontrivial += 1;
+            ctx.rep.count("alignment_sweep_lists", 1);
+            if got.out != data || got.code != Ok(0) {
+                let firstd = got.out.split(|&c| c == 0).zip(data.split(|&c| c == 0)).position(|(a, b)| a != b);
+                ctx.rep.violation(
+                    "C18 a long list of starting points is not walked name by name (a terminator at a block edge of the list)",
+                    format!("-files0-from {}: terminator of name {} at byte offset {t}: status {:?}, {} entries printed (expected {}), first difference at entry {:?}; stderr {:?}", if stdin { "-" } else { "FILE" }, j + 1, got.code, got.out.iter().filter(|&&c| c == 0).count(), roots.len(), firstd, String::from_utf8_lossy(&got.err).lines().take(3).collect::<Vec<_>>()),
+                    json!({"prop":"C18","scale":true}),
+                );
+            }
         }
     }
     for n in [255usize, 256, 257, 512] {
